@@ -410,6 +410,9 @@ impl Sim {
                 detail.push_str(&format!("[t{} {} {}] ", i, s.name, st));
             }
         }
+        if std::env::var("BCSIM_DEBUG").is_ok() {
+            eprintln!("fatal {:?}: kind counts {:?} timers {} now {}", kind, g.kind_counts, g.timers.len(), g.now);
+        }
         let info = FatalInfo { kind, detail, step: g.step, now_ns: g.now };
         drop(g);
         if let Some(h) = FATAL_HOOK.lock().unwrap_or_else(|e| e.into_inner()).as_ref() {
